@@ -99,9 +99,19 @@ def set_enumeration(ex, s, sorted_=False):
     """Some enumeration of a finite set: distinct, exactly its members.  With
     sorted_=True the enumeration is strictly increasing (sorted(set))."""
     sort = key_sort(s.shape)
-    arr = z3.Const(fresh_name("enum"), z3.ArraySort(z3.IntSort(), sort))
-    n = z3.Const(fresh_name("enum.len"), z3.IntSort())
-    idx = z3.Function(fresh_name("enum.idx"), sort, z3.IntSort())
+    if sorted_ and sort == z3.IntSort():
+        # sorted(set) is a FUNCTION of the set: equal sets have the same sorted enumeration
+        # (sorted_enum / sorted_len / sorted_idx are uninterpreted functions of the set's
+        # characteristic array; the facts below are their defining properties for this set)
+        SA = s.arr.sort()
+        arr = z3.Function("sorted_enum", SA, z3.ArraySort(z3.IntSort(), sort))(s.arr)
+        n = z3.Function("sorted_len", SA, z3.IntSort())(s.arr)
+        _idx = z3.Function("sorted_idx", SA, sort, z3.IntSort())
+        idx = lambda t: _idx(s.arr, t)
+    else:
+        arr = z3.Const(fresh_name("enum"), z3.ArraySort(z3.IntSort(), sort))
+        n = z3.Const(fresh_name("enum.len"), z3.IntSort())
+        idx = z3.Function(fresh_name("enum.idx"), sort, z3.IntSort())
     i, j = z3.Ints(f"{fresh_name('i')} {fresh_name('j')}")
     x = z3.Const(fresh_name("x"), sort)
     ex.assume(n >= 0)
